@@ -28,7 +28,7 @@ PROPS["C04"] = dict(
     level_text="Kernel-checked theorem C04_diff_exact: for ALL pairs of structurally sound tables (any number of blocks, any key ranges, either side empty, any key arity) "
                "the modelled differ never panics and its event list satisfies every clause of the property (added/removed/modified exact, nothing else, no key twice, offsets right). "
                "The same decidable predicate is evaluated by Lean on the real diff.DiffTables output of every generated pair, and model output == Go output event-for-event.",
-    level_note=LEVEL_NOTE + "Hypotheses of the theorem: ATable.WF (a consequence of C03, evaluated on the real tables of each run) and hashes identifying keys/rows. "
+    level_note=LEVEL_NOTE + "Hypotheses of the theorem: ATable.WF — proved to follow from C03's tableInv (C04_wf_from_C03, C04_differ_reads_stored; C04_diff_exact_of_stored composes the two) — and hashes identifying keys/rows. "
                "Modelled rather than verified: iterate.go, diffRows, BlockIndex.Get transcribed by hand; column-diff and progress reporting not modelled.",
     lean_modules=["WrglModel.Props.C04"],
     quick_n=160, thorough_n=2500,
@@ -121,7 +121,7 @@ PROPS["C02"] = dict(
 PROPS["C03"] = dict(
     registered=True,
     level_text="Kernel-checked theorem C03_ingest_inv: every table produced by the sorter/inserter pipeline satisfies all clauses of the decidable invariant tableInv (row count, 255-row blocks, strictly ascending keys, block index = (H key, H row) per row and sorted by key hash, table index = first key per block). The same tableInv is evaluated by Lean on every real table dump (with hashes recomputed by the harness) together with doctor's self-diagnosis; offsets b*255+i address row i of block b (C03_offsets).",
-    level_note=LEVEL_NOTE + "Producers covered by the theorem: ingest (commit; merge results and doctor re-ingest go through the same sorter/inserter). Tables received over the wire are checked by the runs (here and in C07) with the same predicate and against the model's ingest of the same rows, not by a theorem.",
+    level_note=LEVEL_NOTE + "Producers covered by theorems: ingest (commit; merge results and doctor re-ingest go through the same sorter/inserter); receipt over the wire (C03_receive_index_clauses: every table object the receiver's IndexTable model accepts satisfies all index clauses; C03_receive_inv: a table that met the invariant at the source meets it at the destination; the row order itself is the sender's, C03_receive_order_is_the_senders); doctor's diagnosis (C03_diagnose_complete: the model of diagnoseCommit reports nothing on a table that satisfies the invariant; the driver compares that model with doctor's output on every dump). The receiver theorem takes block contents as given (byte identity: C06/C07).",
     lean_modules=["WrglModel.Props.C03"],
     quick_n=240, thorough_n=3000, rule=_INGEST_RULE + "; producers: ingest, and (one case in four) receipt over the wire: the table is ingested in a source store, "
          "sent through the real ObjectSender/ObjectReceiver (1..2 transfers, packfile size limits, stray blocks or a block-sharing earlier table "
